@@ -422,3 +422,36 @@ Proof.
     rewrite tree_zeros_like_lift, hc_fold_single in Ed. cbn in Ed. discriminate.
 Qed.
 End GenHyp.
+
+(* ---------------- constructors: init, wiring, the FedProx objective ---------------- *)
+Lemma gen_inits {S OS : Type} (sinit : list Q -> OS) (binit : list Q -> S) p :
+  Gen_fed_prox.init sinit p = (p, sinit p) /\ Gen_apfl.init sinit p = (p, sinit p) /\
+  Gen_mime.init binit p = (p, binit p) /\ Gen_mime_lite.init binit p = (p, binit p).
+Proof. repeat split; reflexivity. Qed.
+
+Lemma gen_wiring :
+  Gen_fed_prox.fed_prox_wiring = true /\ Gen_apfl.apfl_wiring = true /\ Gen_hyp_cluster.hyp_cluster_wiring = true /\
+  Gen_mime.mime_one_grad_fn_for_both_passes = true /\ Gen_mime_lite.mimelite_one_grad_fn_for_both_passes = true.
+Proof. repeat split; reflexivity. Qed.
+
+(* The proximal penalty as translated from fed_prox_loss, 0.5 * mu * |server_params - params|^2, has the exact
+   second-order expansion  penalty(p + h) = penalty(p) + < mu (p - s), h > + 0.5 mu |h|^2 : its gradient in p is
+   mu (p - s), the term `prox_grad` adds to the example gradient (what jax.grad computes is trusted). *)
+Lemma vdot_vscale c x h : vdot (vscale c x) h == c * vdot x h.
+Proof.
+  revert h; induction x as [|a x IH]; intros [|b h]; unfold vdot in *; cbn; try ring. rewrite IH. ring.
+Qed.
+
+Lemma sumsq_shift p : forall s h, length s = length p -> length h = length p ->
+  sumsq (vsub s (vadd p h)) == sumsq (vsub s p) + 2 * vdot (vsub p s) h + sumsq h.
+Proof.
+  induction p as [|a p IH]; intros [|b s] [|c h] Ls Lh; cbn in *; try discriminate; unfold sumsq, vdot in *; cbn; [ring|].
+  rewrite (IH s h) by lia. ring.
+Qed.
+
+Lemma prox_penalty_expansion mu p s h : length s = length p -> length h = length p ->
+  Gen_fed_prox.proximal_penalty mu (vadd p h) s ==
+  Gen_fed_prox.proximal_penalty mu p s + vdot (vscale mu (vsub p s)) h + (1 # 2) * mu * sumsq h.
+Proof.
+  intros Ls Lh. unfold Gen_fed_prox.proximal_penalty. rewrite (sumsq_shift p s h Ls Lh), vdot_vscale. ring.
+Qed.
